@@ -661,7 +661,9 @@ def roundtrip_cases(tier):
   from vt import gen_model as _gm
   from vt.props import c06 as _c06, c07 as _c07
   from hypothesis import strategies as st
-  return st.builds(lambda spec, mode, cfg: {"spec": _c06.shape(spec, mode), "cfg": cfg}, _gm.docspecs(_c07.STYLED),
+  # (one document in four holds the characters that the writer must escape: & < > and -->)
+  docs = st.one_of(_gm.docspecs(_c07.STYLED), _gm.docspecs(_c07.STYLED), _gm.docspecs(_c07.STYLED), _gm.docspecs(_c07.MARKUP))
+  return st.builds(lambda spec, mode, cfg: {"spec": _c06.shape(spec, mode), "cfg": cfg}, docs,
                    st.sampled_from([0, 1, 2]), st.sampled_from(_c06.VTT_NAMES))
 
 
